@@ -13,7 +13,8 @@ PROP = {
                    "workers that never ran a task. Hangs are only reported when the rest of the process is logically "
                    "quiescent (no context switch of any other thread for longer than every timeout in play); a watchdog "
                    "firing with threads still active is inconclusive. dispatch cannot race join in safe Rust (join takes "
-                   "self), so 'join racing dispatch' means join called while accepted tasks are still queued or running."),
+                   "self), so 'join racing dispatch' means join called while accepted tasks are still queued or running."
+                   " One fifth of the accepted dispatches are fire-and-forget (the caller drops the receiver at once): the closure must be started all the same."),
     "technique": "runtime monitoring: event/record oracle over real multi-threaded runs, thread census, panic-payload identity, ThreadSanitizer",
     "rule": ("case = (workers, mode, driver, pool limit, dispatching threads x task list x pacing, join point, fault); "
              "oracle per accepted task: started exactly once, on a worker thread of this dispatcher (thread name, and the "
